@@ -1,15 +1,15 @@
 \* state-graph export for the conformance replay; harness/checks/C04.py rewrites the Deviations line with the
 \* deviations the implementation actually shows (all of them on the pinned tree)
-\* format 2.0, 4 actions deep
+\* 3 populated holes (Populate), then 2 actions (+ the re-open appended to every path): delete a middle slice, re-add a longer one, re-open
 SPECIFICATION Spec
 CONSTANTS
-  MaxHoles = 2
+  MaxHoles = 3
   Names = {"a", "b"}
-  DepthLens = {1, 2, 3}
-  Version = 20
+  DepthLens = {1, 3}
+  Version = 21
   Deviations = {"RenameKeepsLabel", "WsRemoveKeepsChild", "HoleRemovalKeepsObjectRows", "HoleRemovalKeepsGroupChild", "StalePgIdCache", "EmptyTableRaises", "TableByLabel"}
-  MaxLevel = 4
-  Acts = {"AddHole", "AddDepthData", "AddIntervalData", "SetValues", "Rename", "RemoveDataViaParent", "RemoveDataViaWorkspace", "RemoveHoleViaParent", "RemoveHoleViaWorkspace", "RemovePropertyGroup", "AddValuesToTable", "Reopen", "CopyGroup"}
+  MaxLevel = 3
+  Acts = {"Populate", "AddDepthData", "SetValues", "RemoveDataViaParent", "RemoveHoleViaParent", "RemovePropertyGroup", "Reopen"}
 VIEW vw
 INVARIANT ExportState
 ACTION_CONSTRAINT ExportTrans
